@@ -50,6 +50,11 @@
                         handed the same frame object keeps them instead of its own weights (seeded changes C01_J,
                         C09_J, C11_J, C12_J of round 6)
 
+     OutlierColumnsOwn  the outlier detection models of a run use the columns of ITS request; FALSE = the code as found
+                        (open finding F19): they use `baseline_normalized_margin` whenever the frame carries it, and an
+                        earlier margin run on the same baseline frame object has left it there - a turnout / party run
+                        with the outlier models on then sets other units aside than the same run on a fresh frame
+
    The caller's baseline frame is an object that outlives a call (`proc.frame`: "pristine" or "worked" = an earlier
    margin run has left its columns in it); a new process loads a pristine frame.
    A national summary has its own argument tuple (weights / base / levels), independent of the arguments of the
@@ -58,7 +63,7 @@ EXTENDS Naturals, Sequences, FiniteSets, TLC
 
 CONSTANTS Estimators, ArgIds, DefaultArgIds, HashSeeds,
           SigmaSeeded, SplitSeeded, BootSeeded, FreshModelPerCall, DefaultsUntouched, OrderedIteration,
-          SummaryStateless, WeightsRebuilt, FeedCopied
+          SummaryStateless, WeightsRebuilt, FeedCopied, OutlierColumnsOwn
 
 VARIABLES proc,     \* [id, hash, defaults, frame, feed]  feed = the caller's feed frame (same states as frame);   defaults = content of the default-argument objects; frame = the caller's baseline frame
           client,   \* [serial, model]        model = NoModel or [est, eff, draws, ran]
@@ -115,13 +120,14 @@ Digest(e, a, fresh) ==
     order |-> Order,
     weights |-> "-",
     bweights |-> IF e = "bootstrap" THEN (IF ~WeightsRebuilt /\ proc.frame = "worked" THEN "turnout" ELSE "two party") ELSE "-",
-    rweights |-> IF e \in Conformal THEN (IF ~FeedCopied /\ proc.feed = "worked" THEN "two party" ELSE "own") ELSE "-" ]
+    rweights |-> IF e \in Conformal THEN (IF ~FeedCopied /\ proc.feed = "worked" THEN "two party" ELSE "own") ELSE "-",
+    ofeat |-> IF e \in Conformal THEN (IF ~OutlierColumnsOwn /\ proc.frame = "worked" THEN "margin column" ELSE "own") ELSE "-" ]
 
 \* the weights a summary with argument tuple sa effectively uses
 WeightsUsed(sa) == IF SummaryStateless \/ client.model.nat = "-" THEN sa ELSE client.model.nat
 NatDigest(sa) ==
   [ est |-> "summary", eff |-> client.model.eff, split |-> NoSrc, sigma |-> NoSrc,
-    draws |-> client.model.draws, order |-> Order, weights |-> WeightsUsed(sa), bweights |-> "-", rweights |-> "-" ]
+    draws |-> client.model.draws, order |-> Order, weights |-> WeightsUsed(sa), bweights |-> "-", rweights |-> "-", ofeat |-> "-" ]
 
 Record(k, d) == seen' = [seen EXCEPT ![k] = @ \cup {d}]
 
